@@ -328,7 +328,7 @@ type C12Stream struct {
 func C12Build(r *sim.Run, modes []string) *C12Stream {
 	t := r.T
 	mode := modes[t.Draw(len(modes))]
-	opts := work.PackOpts{MaxTracks: 3, MaxSegs: 4, MaxFrags: 3, MaxSamples: 4, Foreign: mode != "mfra", EmsgOnly: true, Styp: 2, NoEmptyTrack: false}
+	opts := work.PackOpts{MaxTracks: 3, MaxSegs: 4, MaxFrags: 3, MaxSamples: 4, Foreign: mode != "mfra", EmsgOnly: true, Styp: 2, NoEmptyTrack: false, LargeMdat: true}
 	if mode == "styp" {
 		opts.Styp = 1
 	}
